@@ -42,7 +42,23 @@ const (
 	kBytes
 )
 
-// Cfg is the flag set of the workload: one flag of each supported type (+ built-in help, config).
+// names of the long-named flags: 64, 65, 200 and 63 bytes (around the 64-byte width of the
+// name column of PrintUsage, the only length-related constant of the package)
+const (
+	nameLB = "long_bool_64_012345678901234567890123456789012345678901234567890"
+	nameLN = "long_int_65_01234567890123456789012345678901234567890123456789012"
+	nameLS = "long_string_200_0123456789012345678901234567890123456789012345678901234567890123456789012345678901234567890123456789012345678901234567890123456789012345678901234567890123456789012345678901234567890123"
+	nameLU = "long_uint_63_01234567890123456789012345678901234567890123456789"
+)
+
+func init() {
+	if len(nameLB) != 64 || len(nameLN) != 65 || len(nameLS) != 200 || len(nameLU) != 63 {
+		panic("cfgargs: long flag names do not have the intended lengths")
+	}
+}
+
+// Cfg is the flag set of the workload: one flag of each supported type, four more flags with
+// long names (+ built-in help, config).
 type Cfg struct {
 	B   bool          `flag:"b,false,a bool"`
 	N   int           `flag:"n,3,an int"`
@@ -53,18 +69,22 @@ type Cfg struct {
 	F   float64       `flag:"f,1.5,a float64"`
 	D   time.Duration `flag:"d,2s,a duration"`
 	By  []byte        `flag:"by,YWI=,bytes"`
+	LB  bool          `flag:"long_bool_64_012345678901234567890123456789012345678901234567890,false,a bool with a 64-byte name"`
+	LN  int           `flag:"long_int_65_01234567890123456789012345678901234567890123456789012,8,an int with a 65-byte name"`
+	LS  string        `flag:"long_string_200_0123456789012345678901234567890123456789012345678901234567890123456789012345678901234567890123456789012345678901234567890123456789012345678901234567890123456789012345678901234567890123,ldflt,a string with a 200-byte name"`
+	LU  uint          `flag:"long_uint_63_01234567890123456789012345678901234567890123456789,9,a uint with a 63-byte name"`
 }
 
 // tag defaults of Cfg, written down by hand
 func defaults() Cfg {
-	return Cfg{B: false, N: 3, I64: -4, UI: 5, U64: 6, S: "dflt", F: 1.5, D: 2 * time.Second, By: []byte("ab")}
+	return Cfg{B: false, N: 3, I64: -4, UI: 5, U64: 6, S: "dflt", F: 1.5, D: 2 * time.Second, By: []byte("ab"), LB: false, LN: 8, LS: "ldflt", LU: 9}
 }
 
 // content of the valid JSON configuration file and the values it stands for
-const validJSON = `{"B":true,"N":70,"I64":-40,"UI":50,"U64":60,"S":"json","F":2.5,"D":3000000000,"By":"eHl6"}`
+const validJSON = `{"B":true,"N":70,"I64":-40,"UI":50,"U64":60,"S":"json","F":2.5,"D":3000000000,"By":"eHl6","LB":true,"LN":80,"LS":"ljson","LU":90}`
 
 func jsonValues() Cfg {
-	return Cfg{B: true, N: 70, I64: -40, UI: 50, U64: 60, S: "json", F: 2.5, D: 3 * time.Second, By: []byte("xyz")}
+	return Cfg{B: true, N: 70, I64: -40, UI: 50, U64: 60, S: "json", F: 2.5, D: 3 * time.Second, By: []byte("xyz"), LB: true, LN: 80, LS: "ljson", LU: 90}
 }
 
 const (
@@ -77,13 +97,17 @@ const (
 	fF
 	fD
 	fBy
+	fLB
+	fLN
+	fLS
+	fLU
 	fHelp
 	fConfig
 	nFlags
 )
 
-var flagNames = [nFlags]string{"b", "n", "i64", "ui", "u64", "s", "f", "d", "by", "help", "config"}
-var flagKinds = [nFlags]kind{kBool, kInt, kInt64, kUint, kUint64, kString, kFloat, kDur, kBytes, kBool, kString}
+var flagNames = [nFlags]string{"b", "n", "i64", "ui", "u64", "s", "f", "d", "by", nameLB, nameLN, nameLS, nameLU, "help", "config"}
+var flagKinds = [nFlags]kind{kBool, kInt, kInt64, kUint, kUint64, kString, kFloat, kDur, kBytes, kBool, kInt, kString, kUint, kBool, kString}
 var flagIndex = func() map[string]int {
 	m := map[string]int{}
 	for i, n := range flagNames {
@@ -206,34 +230,45 @@ loop:
 func assign(o *outcome, fi int, s string) bool {
 	var err error
 	switch fi {
-	case fB, fHelp:
+	case fB, fLB, fHelp:
 		v := false
 		if s != "" {
 			v, err = strconv.ParseBool(s)
 		}
-		if fi == fB {
+		switch fi {
+		case fB:
 			o.cfg.B = v
-		} else {
+		case fLB:
+			o.cfg.LB = v
+		default:
 			o.usage = v
 		}
-	case fN:
+	case fN, fLN:
 		var v int64
 		if s != "" {
 			v, err = strconv.ParseInt(s, 0, strconv.IntSize)
 		}
-		o.cfg.N = int(v)
+		if fi == fN {
+			o.cfg.N = int(v)
+		} else {
+			o.cfg.LN = int(v)
+		}
 	case fI64:
 		var v int64
 		if s != "" {
 			v, err = strconv.ParseInt(s, 0, 64)
 		}
 		o.cfg.I64 = v
-	case fUI:
+	case fUI, fLU:
 		var v uint64
 		if s != "" {
 			v, err = strconv.ParseUint(s, 0, strconv.IntSize)
 		}
-		o.cfg.UI = uint(v)
+		if fi == fUI {
+			o.cfg.UI = uint(v)
+		} else {
+			o.cfg.LU = uint(v)
+		}
 	case fU64:
 		var v uint64
 		if s != "" {
@@ -242,6 +277,8 @@ func assign(o *outcome, fi int, s string) bool {
 		o.cfg.U64 = v
 	case fS:
 		o.cfg.S = s
+	case fLS:
+		o.cfg.LS = s
 	case fF:
 		var v float64
 		if s != "" {
